@@ -201,7 +201,7 @@ def process_leg(ctx: Ctx, part: Partial, inputs):
             nt = any(len(list(r.iterate_images())) >= 1 for r in res) or len(json.dumps([r.to_json() for r in res], default=repr)) > 4000
         except Exception:  # noqa
             nt = False
-        part.case(digest(["proc", name, hashlib.md5(it["data"]).hexdigest()]), nt, sample={"input": name, "bytes": len(it["data"])} if part.evaluations % 40 == 0 else None, leg="process",
+        part.case(digest(["proc", name, hashlib.md5(it["data"]).hexdigest()]), nt, sample={"input": name, "bytes": len(it["data"])} if len(part.samples) < 3 else None, leg="process",
                   fixture=name.startswith("fixture:"))
         fails = []
         if not unchanged:
